@@ -19,6 +19,15 @@ TRACE_CFG = ("CONSTANTS\n  Oracles = {}\n  ItersSet = {}\n  MaxDepth = 100000\n 
              "CHECK_DEADLOCK FALSE\n")
 
 
+def halvings(a0, a):
+    """log2(a0 / a) as an integer; 99999 when the step size has underflowed."""
+    if not (a > 0):
+        return 99999
+    with np.errstate(all="ignore"):
+        r = np.float64(a0) / np.float64(a)
+    return int(round(math.log2(r))) if np.isfinite(r) and r > 0 else 99999
+
+
 def to_trace(events, oracle, iters):
     out = []
     halv = 0
@@ -28,10 +37,10 @@ def to_trace(events, oracle, iters):
         if k == "lmd.start":
             if alpha0 is None:
                 alpha0 = f["alpha"]
-            halv = int(round(math.log2(alpha0 / f["alpha"])))
+            halv = halvings(alpha0, f["alpha"])
             out.append({"k": "start", "halvings": halv})
         elif k == "lmd.iter":
-            h = int(round(math.log2(alpha0 / f["alpha"])))
+            h = halvings(alpha0, f["alpha"])
             out.append({"k": "iter", "t": f["t"], "up": bool(f["l"] > f["prev_l"]), "halvings": h})
             cur_alpha = f["alpha"]
         elif k == "lmd.restart":
@@ -138,6 +147,19 @@ def worker(job):
             ex = E.quiet(FactoredInference(dom, iters=3000).estimate, meas, total=total)
             res["exact_loss"] = E.l2_loss_of_model(ex, meas)
             res["exact_total"] = float(ex.total)
+            # "attains the same optimum" is a statement about the limit: a run that is still short of it gets four and then
+            # sixteen times the iterations (on a fresh engine) before it is judged
+            for mult in (4, 16):
+                if not (res["loss"] > res["exact_loss"] + 1e-3 * max(1.0, res["l0"] - res["exact_loss"])) or bad:
+                    break
+                eng_l = LocalInference(dom, iters=iters * mult, marginal_oracle=oracle)
+                with np.errstate(all="ignore"):
+                    model_l = eng_l.estimate(meas, total=total)
+                loss_l = 0.0
+                for (Q, y, noise, proj) in meas:
+                    x = np.asarray(model_l.project(tuple(proj)).values, dtype=float).reshape(-1)
+                    loss_l += 0.5 * float(((Q @ x - y) ** 2).sum()) / noise ** 2
+                res["loss"], res["iters_used"] = loss_l, iters * mult
     except RecursionError as ex:
         res["crash"] = "RecursionError (unbounded restart chain)"
     except Exception as ex:
@@ -293,7 +315,10 @@ def run(ctx, canary=False):
             if res["loss"] < ex - 1e-6 * max(1.0, ex):
                 ctx.violation("disjoint cliques: oracle %s reports loss %r BELOW the exact optimum %r" % (oracle, res["loss"], ex), info,
                               {"kind": "below_optimum", "oracle": oracle})
-        if len(traces) < (300 if thorough else 50):
+        if any(e_.get("halvings") == 99999 for e_ in res["trace"]["events"]):
+            # the step size underflowed (thousands of late halvings): not expressible in the trace encoding, nothing to validate
+            ctx.extra["traces_with_underflowed_step"] = ctx.extra.get("traces_with_underflowed_step", 0) + 1
+        elif len(traces) < (300 if thorough else 50):
             t = res["trace"]
             t["info"] = {"oracle": oracle, "iters": iters}
             traces.append(t)
